@@ -1,7 +1,8 @@
 """Condition specifications and generation of CrossHair condition modules.
 
 A *condition* is a harness function `fn(**args) -> str` ('' = the property
-held on this input, otherwise a short reason) together with the declaration
+held on this input, '~' = the input is excluded from the claim, otherwise a
+short reason) together with the declaration
 of its symbolic parameters.  From a condition the runner generates, per
 shard, a tiny module with
 
@@ -138,6 +139,8 @@ def cond(%(sig)s) -> bool:
     _sample([%(symnames)s])
     if r == "":
         STATS["ok"] += 1
+        return True
+    if r == "~":        # input excluded from the claim (trivially true): explored, but not counted as non-trivial
         return True
     return False
 
